@@ -36,9 +36,18 @@ import (
 
 const svcPrefix = "scene-"
 
-func svcName(k int) string { return svcPrefix + strconv.Itoa(k) }
+// service number 0 stands for the empty service id (FindIdleService uses "" for "none yet")
+func svcName(k int) string {
+	if k == 0 {
+		return ""
+	}
+	return svcPrefix + strconv.Itoa(k)
+}
 
 func svcShow(name string) string {
+	if name == "" {
+		return "0"
+	}
 	if strings.HasPrefix(name, svcPrefix) {
 		if _, err := strconv.Atoi(name[len(svcPrefix):]); err == nil {
 			return name[len(svcPrefix):]
@@ -213,7 +222,47 @@ func (e *env) dump() string {
 	if len(e.ns.Handlers) != len(e.sent) {
 		fmt.Fprintf(&sb, "!handlers=%d", len(e.ns.Handlers))
 	}
+	// the public-scene table (sorted) and whether the keeper's timer has been armed
+	sb.WriteString(" T=")
+	for i, t := range e.mgr.VTable() {
+		if i > 0 {
+			sb.WriteByte(',')
+		}
+		fmt.Fprintf(&sb, "%d:%d", t[0], t[1])
+	}
+	fmt.Fprintf(&sb, " K=%d N=%d", hx.B2i(e.mgr.VKeeperStarted()), e.mgr.VNextId())
 	return sb.String()
+}
+
+// showSent renders the allocation requests sent since `before`, in send order.
+func (e *env) showSent(before int) string {
+	if len(e.sent) <= before {
+		return "quiet"
+	}
+	var fs []string
+	for _, q := range e.sent[before:] {
+		fs = append(fs, fmt.Sprintf("%d:%s:%d", q.sid, svcShow(q.svc), q.cfg))
+	}
+	return strings.Join(fs, ";")
+}
+
+// serveTimers does what the service's loop does with its timer queue: every timer object that
+// time.AfterFunc has put there is handed to the real timer.Mgr.Do (callback, then re-arm).
+// These are the timers the real SceneServiceMgr.Start and PublicScenes.Start registered.
+func (e *env) serveTimers() int {
+	synctest.Wait() // let the AfterFunc goroutines that are due put their timers on the queue
+	tm := e.ns.GetRunService().GetTimerMgr()
+	fired := 0
+	for {
+		select {
+		case t := <-tm.GetQueue():
+			tm.Do(t)
+			fired++
+			continue
+		default:
+		}
+		return fired
+	}
 }
 
 // exec interprets one op line against the real code.
@@ -347,6 +396,30 @@ func exec(op string) string {
 					}
 					break
 				}
+			}
+		case "pubadd":
+			e.mgr.VAddPublic(int32(hx.KVInt(ws, "cfg")), int32(hx.KVInt(ws, "n")))
+		case "update":
+			// one round of the keeper over the whole table: the real PublicScenes.Update
+			before := len(e.sent)
+			e.mgr.VUpdate()
+			r = e.showSent(before)
+		case "timers":
+			// the service's loop serves its timer queue (keep-alive check and keeper, as armed by the real Start functions)
+			before, nacks := len(e.sent), len(e.acks)
+			fired := e.serveTimers()
+			e.pump()
+			r = fmt.Sprintf("f%d/%s", fired, e.showSent(before))
+			// requests the request layer's expiry check completed with a timeout are no longer in flight
+			kept := e.sent[:0:0]
+			for _, q := range e.sent {
+				if _, ok := e.ns.Handlers[q.reqId]; ok {
+					kept = append(kept, q)
+				}
+			}
+			e.sent = kept
+			for _, a := range e.acks[nacks:] {
+				r += "+" + a
 			}
 		case "weight":
 			switch scenem.VWeightCmp(hx.KVInt(ws, "a"), hx.KVInt(ws, "b")) {
@@ -567,6 +640,59 @@ func (g *gen) note(op, before, after string) {
 	}
 }
 
+// noteRound records the requests a keeper round sent (r=...sid:svc:cfg;...) as in flight.
+func (g *gen) noteRound(obs string) {
+	f := strings.Fields(obs)
+	if len(f) == 0 || !strings.HasPrefix(f[0], "r=") {
+		return
+	}
+	r := f[0][2:]
+	if i := strings.IndexByte(r, '/'); i >= 0 {
+		if r[:i] != "f0" {
+			g.h.Count("reach.timers.fired." + r[:i])
+		}
+		r = r[i+1:]
+	}
+	if r == "quiet" {
+		return
+	}
+	es := strings.Split(r, ";")
+	if len(es) > 1 {
+		g.h.Count("reach.round.several-requests")
+	}
+	for _, e := range es {
+		q := strings.Split(e, ":")
+		if len(q) == 3 {
+			g.h.Count("reach.round.request-sent")
+			g.flight = append(g.flight, q[0]+"/"+q[2])
+		}
+	}
+}
+
+// emptyIdCase: a scene service reports under the empty service id (outside the property's hypothesis: compared with
+// the model's literal FindIdleService loop, not judged by the property).  Only bare placement decisions are made.
+func (g *gen) emptyIdCase(run func(string) string, nops int) {
+	h := g.h
+	perf, pub := scenem.VFlags()
+	run(fmt.Sprintf("reset perf=%d pub=%d", hx.B2i(perf), hx.B2i(pub)))
+	for i := 0; i < nops; i++ {
+		switch c := h.R.Intn(10); {
+		case c < 4:
+			run(fmt.Sprintf("refresh svc=%d n=%d", h.R.Intn(4), h.Pick(0, 1, 2, 3, 5, 5000, 7000)))
+		case c < 8:
+			obs := run(fmt.Sprintf("alloc cfg=%d", 100+h.R.Intn(3)))
+			if strings.HasPrefix(obs, "r=none") && len(workingSet(obs)) > 0 {
+				h.Count("reach.empty-id.alloc-none-although-working")
+			}
+		case c < 9:
+			run(fmt.Sprintf("lost svc=%d", h.R.Intn(4)))
+		default:
+			run(fmt.Sprintf("adv ms=%d", h.Pick(1000, 3000)))
+			run("tick")
+		}
+	}
+}
+
 func (g *gen) oneCase(run0 func(string) string, nops int, malformed bool) {
 	last := ""
 	run := func(op string) string {
@@ -584,7 +710,8 @@ func (g *gen) oneCase(run0 func(string) string, nops int, malformed bool) {
 	}
 	g.cfgIds = cfgFamilies[fam]
 	h.Count(fmt.Sprintf("case.cfg-family.%d", fam))
-	run("reset")
+	perf, pub := scenem.VFlags()
+	run(fmt.Sprintf("reset perf=%d pub=%d", hx.B2i(perf), hx.B2i(pub)))
 	if h.R.Intn(4) != 0 { // else: no scene service is routable (every spawn fails at once)
 		run(routeOp(h))
 	}
@@ -746,6 +873,32 @@ func (g *gen) oneCase(run0 func(string) string, nops int, malformed bool) {
 		case c < 86:
 			h.Count("op.wlost")
 			obs = run(fmt.Sprintf("wlost svc=%d", g.svc()))
+		case c < 90: // the service's loop serves the timer queue (real timers of Start / PublicScenes.Start)
+			h.Count("op.timers")
+			obs = run("timers")
+			g.noteRound(obs)
+		case c < 91: // k seconds of normal operation: the clock moves by 1 s, the loop serves the timers
+			k := 1 + h.R.Intn(14)
+			h.Count("op.seconds")
+			for j := 0; j < k; j++ {
+				run(fmt.Sprintf("adv ms=%d", h.Pick(1000, 1000, 1000, 999, 1001, 500)))
+				obs = run("timers")
+				g.noteRound(obs)
+				g.syncLive(obs)
+			}
+		case c < 92: // a round of the keeper over the whole table
+			h.Count("op.update")
+			obs = run("update")
+			g.noteRound(obs)
+		case c < 93: // another public scene is registered (an existing entry must be kept)
+			h.Count("op.pubadd")
+			cfg := g.cfg()
+			if tb := strings.Split(dumpField(last, "T="), ","); len(tb) >= 4 {
+				// keep the table small (the acceptance test tries every visiting order): re-register an existing entry
+				cfg, _ = strconv.Atoi(strings.SplitN(tb[h.R.Intn(len(tb))], ":", 2)[0])
+				h.Count("op.pubadd.existing-entry")
+			}
+			obs = run(fmt.Sprintf("pubadd cfg=%d n=%d", cfg, h.Pick(0, 1, 2, 3)))
 		case c < 98:
 			h.Count("op.req")
 			cfg := g.cfg()
@@ -804,6 +957,10 @@ func TestRun(t *testing.T) {
 				h.Count("case.malformed")
 			} else {
 				h.Count("case.wellformed")
+			}
+			if h.R.Intn(16) == 0 {
+				h.Count("case.empty-service-id")
+				g.emptyIdCase(run, 10+h.R.Intn(20))
 			}
 			g.oneCase(run, 15+h.R.Intn(50), malformed)
 		}
